@@ -23,3 +23,6 @@ mod ptr_mut;
 pub use address::Address;
 pub use ptr::*;
 pub use ptr_mut::*;
+
+#[cfg(all(koto_verif, feature = "arc"))]
+pub use ptr_impl::verif_sched;
